@@ -178,15 +178,16 @@ fn any_kind() -> Kind {
 /// A heap whose table has `n` slots holding S[0..n] with the given kinds, and intern maps that
 /// satisfy the representation invariant.
 pub fn mk_heap(kinds: &[Kind], sweep_index: usize, unmarked: bool) -> Heap {
-  let mut heap = Heap {
-    str_pointer_table: Vec::new(),
-    module_reference_pointer_table: Vec::new(),
-    interned_string: HashMap::new(),
-    interned_static_str: HashMap::new(),
-    interned_module_reference: HashMap::new(),
-    unmarked_module_references: HashSet::new(),
-    sweep_index,
-  };
+  // start from the real constructor (so that fields added later keep the value `Heap::new` gives them) and reset
+  // the tables this harness describes
+  let mut heap = Heap::new();
+  heap.str_pointer_table = Vec::new();
+  heap.module_reference_pointer_table = Vec::new();
+  heap.interned_string = HashMap::new();
+  heap.interned_static_str = HashMap::new();
+  heap.interned_module_reference = HashMap::new();
+  heap.unmarked_module_references = HashSet::new();
+  heap.sweep_index = sweep_index;
   for (i, k) in kinds.iter().enumerate() {
     match k {
       Kind::Perm => {
@@ -378,6 +379,30 @@ fn gc_sweep_resumes_at_index() {
 #[cfg(kani)]
 #[kani::proof]
 #[kani::unwind(22)]
+fn gc_partial_sweep_then_alloc() {
+  // a string interned after a slice of an incremental sweep that did not start at slot 0 must not disturb the
+  // live strings in front of the slice (whether or not reclaimed slots are recycled)
+  let kinds = [Kind::Perm, Kind::Temp(true), Kind::Temp(false)];
+  let mut heap = mk_heap(&kinds, 2, false);
+  heap.sweep(2);
+  assert!(kind_of(&heap, 2) == Kind::Dead);
+  let n = heap.alloc_string(S[3].to_string());
+  assert!(kind_of(&heap, 0) == Kind::Perm);
+  assert!(kind_of(&heap, 1) == Kind::Temp(true));
+  assert!(heap.interned_static_str.get(S[0]) == Some(&0));
+  assert!(heap.interned_string.get(S[1]) == Some(&1));
+  let slot = n.0.as_heap_id().unwrap() as usize;
+  assert!(slot >= 2);
+  assert!(n.as_str(&heap).len() == S[3].len());
+  let again = heap.alloc_string(S[1].to_string());
+  assert!(again.0.as_heap_id() == Some(1)); // the live string in front of the slice is still interned
+  kani::cover!(true);
+  std::mem::forget(heap);
+}
+
+#[cfg(kani)]
+#[kani::proof]
+#[kani::unwind(22)]
 fn gc_mark_step() {
   let kinds = [Kind::Temp(false), Kind::Temp(true)];
   let mut heap = mk_heap(&kinds, 0, false);
@@ -443,9 +468,10 @@ fn realloc_after_reclaim_is_fresh() {
   heap.sweep(1);
   assert!(kind_of(&heap, 0) == Kind::Dead);
   let p = heap.alloc_string(S[0].to_string());
-  assert!(p.0.as_heap_id() == Some(1)); // a fresh slot, not the reclaimed one
+  // whichever slot the implementation picks (a fresh one today), the handle names a live temporary with that text
+  let slot = p.0.as_heap_id().unwrap() as usize;
   assert!(p.as_str(&heap).len() == S[0].len());
-  assert!(kind_of(&heap, 1) == Kind::Temp(false));
+  assert!(kind_of(&heap, slot) == Kind::Temp(false));
   let q = heap.alloc_string(S[0].to_string());
   assert!(p == q); // injective: equal strings, equal handles
   std::mem::forget(heap);
